@@ -15,8 +15,15 @@ mkdir -p build
 build_translator() {
   if [ -f translator/main.go ]; then
     (cd translator && go build -o translator . )
-    ./translator/translator -in $REPO/types/keys.go -out build/KeysGen.v.new
-    if ! cmp -s build/KeysGen.v.new coq/gen/KeysGen.v; then mkdir -p coq/gen; cp build/KeysGen.v.new coq/gen/KeysGen.v; fi
+    # on failure (source outside the translator's fragment) the committed coq/gen/KeysGen.v stays in place; the
+    # check then falls back to validating that model against the real key functions (pure key stream)
+    if ./translator/translator -in $REPO/types/keys.go -out build/KeysGen.v.new; then
+      if ! cmp -s build/KeysGen.v.new coq/gen/KeysGen.v; then mkdir -p coq/gen; cp build/KeysGen.v.new coq/gen/KeysGen.v; fi
+    else
+      echo "TRANSLATOR FAILED: keeping the committed coq/gen/KeysGen.v"
+      git checkout -- coq/gen/KeysGen.v 2>/dev/null || true
+      TRANSLATOR_FAILED=1
+    fi
   fi
   if [ -f translator/census/main.go ]; then
     (cd translator && go build -o census/census ./census )   # C20 census tie, run by tools/census.sh
@@ -48,7 +55,7 @@ build_harness() {
 }
 
 case $what in
-  translator) build_translator ;;
+  translator) build_translator; [ -z "${TRANSLATOR_FAILED:-}" ] ;;
   coq) build_translator; build_coq ;;
   model) build_model ;;
   harness) build_harness ;;
